@@ -8,7 +8,9 @@ import (
 
 	"github.com/libsv/go-bk/base58"
 	"github.com/libsv/go-bk/bec"
+	"github.com/libsv/go-bk/chaincfg"
 	"github.com/libsv/go-bk/crypto"
+	"github.com/libsv/go-bk/wif"
 )
 
 func init() {
@@ -621,6 +623,13 @@ func genC05(e *emitter, r *rng, thorough bool) {
 			e.emit("privbytes.boundary", "privbytes "+hx(v.Bytes()))
 		}
 	}
+	// encodings longer than 32 bytes: zero bytes in front of a 32-byte key (the number is the same), and longer numbers
+	for _, extra := range []int{1, 2, 8, 32} {
+		k := r.bytes(32)
+		e.emit("privbytes.long-leading-zeros", "privbytes "+hx(append(make([]byte, extra), k...)))
+		e.emit("privbytes.long", "privbytes "+hx(append(r.bytes(extra), k...)))
+		e.emit("privbytes.long-leading-zeros", "privbytes "+hx(append(make([]byte, extra), 1)))
+	}
 }
 
 func keyPool(r *rng, n int) []*big.Int {
@@ -993,6 +1002,15 @@ func genC12(e *emitter, r *rng, thorough bool) {
 			}
 			// other hash, perturbed r / s
 			e.emit("recover.otherhash", "compact.recover "+hx(out)+" "+hx(r.bytes(32)))
+			// hashes at the extremes (≥ N as numbers, longer than 32 bytes, short), signed and recovered
+			for _, hh := range [][]byte{bytes.Repeat([]byte{0xff}, 32), bytes.Repeat([]byte{0xff}, 64), append(bytes.Repeat([]byte{0xff}, 16), r.bytes(48)...),
+				pad32(new(big.Int).Add(curveN, big.NewInt(1)).Bytes()), bytes.Repeat([]byte{0xff}, 20), make([]byte, 32)} {
+				e.emit("sign.hash-extreme", "compact.sign "+nhx(d)+" "+hx(hh)+" "+c)
+				e.emit("recover.hash-extreme", "compact.recover "+hx(out)+" "+hx(hh))
+				if o2, err := bec.SignCompact(bec.S256(), privOf(d), hh, c == "1"); err == nil {
+					e.emit("recover.hash-extreme.own", "compact.recover "+hx(o2)+" "+hx(hh))
+				}
+			}
 			x := append([]byte{}, out...)
 			x[1+r.intn(32)] ^= 1
 			e.emit("recover.badr", "compact.recover "+hx(x)+" "+hx(h))
@@ -1195,6 +1213,16 @@ func genC12(e *emitter, r *rng, thorough bool) {
 }
 
 func genC14(e *emitter, r *rng, thorough bool) {
+	for i := 0; i < 3; i++ {
+		w, err := wif.NewWIF(privOf(modN(new(big.Int).SetBytes(r.bytes(32)))), &chaincfg.MainNet, i%2 == 0)
+		if err != nil {
+			continue
+		}
+		for _, sp := range []string{" ", "\t", "\n", "\v", "\f", "\r", "\r\n", "\u0085", "\u00a0", "\u2028", "\u3000", "\x00"} {
+			e.emit("wif.dec.whitespace-wrapped", "wif.dec "+hx([]byte(sp+w.String())))
+			e.emit("wif.dec.whitespace-wrapped", "wif.dec "+hx([]byte(w.String()+sp)))
+		}
+	}
 	n := 30
 	if thorough {
 		n = 400
